@@ -219,6 +219,12 @@ def cases_C14(rng, tier):
             out.append(case("enctag", ty, enc(d), fam="tagged-encode",
                             expect="ok " + (head(6, MSG_TAG[ty]) + enc(want)).hex()))
             out.append(case("enc", ty, enc(d), fam="untagged-encode", expect="ok " + enc(want).hex()))
+    for ty in TAGGED_TYPES:
+        body = enc(gen_msg(rng, ty, 1))
+        own = head(6, MSG_TAG[ty]) + body
+        for t in sorted(set(TAGS + [0, 1, 2, 3, 4, 5, 16, 17, 18, 21, 22, 23, 24, 32, 33, 34, 35, 36, 61, 63, 96, 97, 98, 256, 55799, 55800, 2**32, 2**64 - 1])):
+            out.append(case("dectag", ty, head(6, t) + own, fam="tag-over-own-tag", expect_re=r"err:\w+"))
+            out.append(case("dec", ty, head(6, t) + own, fam="tag-over-own-tag", expect_re=r"err:\w+"))
     return out
 
 def post_C14(cases, impl):
@@ -278,6 +284,12 @@ def cases_C13(rng, tier):
         d = enc(d_protected(pb, hd))
         out.append(case("enc", "ProtectedHeader", d, fam="enc", key=("ProtectedHeader", d)))
         out.append(case("encval", "ProtectedHeader", d, fam="api-encode", key=("ProtectedHeader", d), impl_only=True))
+    for ty in TAGGED_TYPES:
+        body = enc(gen_msg(rng, ty, 1))
+        own = head(6, MSG_TAG[ty]) + body
+        for t in sorted(set(TAGS + [0, 1, 2, 3, 4, 5, 16, 17, 18, 21, 22, 23, 24, 32, 33, 34, 35, 36, 61, 63, 96, 97, 98, 256, 55799, 55800, 2**32, 2**64 - 1])):
+            out.append(case("dectag", ty, head(6, t) + own, fam="tag-over-own-tag", expect_re=r"err:\w+"))
+            out.append(case("dec", ty, head(6, t) + own, fam="tag-over-own-tag", expect_re=r"err:\w+"))
     return out
 
 def post_C13(cases, impl):
@@ -459,6 +471,26 @@ def cases_C03(rng, tier):
                                 expect="ok %s %s" % (sbytes[w][1].hex(), want.hex())))
             out.append(case("helperdesc", "sign.verify_signature", enc(m), bytes([nsig]), aad, fam="sign.index-out-of-range",
                             expect="panic", may_panic=True))
+    # counter-signatures of decoded messages: context CounterSignature, body = the message's protected bytes,
+    # sign_protected = the counter-signature's protected bytes as received (nested one level down, or in the
+    # unprotected header), every spelling
+    inner_spellings = [b"", b"\xa0", b"\xbf\xff", b"\xb8\x00", b"\xa1\x01\x26", b"\xbf\x01\x26\xff", b"\xa2\x04\x41\x6b\x01\x26", b"\xa1\x18\x01\x38\x06"]
+    for ip in inner_spellings:
+        for form in ("single", "list"):
+            for where in ("protected", "unprotected"):
+                for style in (None, "noncanon"):
+                    cs0 = A(B(ip), M(), B(b"cs0")); cs1 = A(B(b"\xa1\x04\x41\x31"), M(), B(b"cs1"))
+                    v7 = cs0 if form == "single" else A(cs1, cs0)
+                    k = 0 if form == "single" else 1
+                    hmap = M((I(1), I(-7)), (I(7), v7))
+                    hb = enc(hmap, rng if style else None, style="nobignum")
+                    if where == "protected":
+                        outer = hb; msg = enc(A(B(hb), M(), B(b"pl"), B(b"sg")))
+                    else:
+                        outer = b"\xa1\x01\x26"; msg = enc(A(B(outer), ("raw", hb), B(b"pl"), B(b"sg")))
+                    want = pyspec.sig_structure("CounterSignature", outer, ip, b"aad", b"payload")
+                    out.append(case("helperhex", "countersig.tbs", msg, bytes([k]), b"aad", b"payload", fam="countersig-uses-wire-bytes",
+                                    impl_only=True, expect="ok " + want.hex()))
     return out
 
 def post_injective(cases, impl):
@@ -1057,6 +1089,8 @@ def cases_C12(rng, tier):
             else: rest.insert(rng.randrange(len(rest) + 1), A(d_reg(1, rng.choice([1, 2, 3, 4, 5, 6, 7])), gen_scalar(rng)))
             x[7] = ('a', rest)
             out.append(case("enc", kind, enc(('a', x)), fam="dup-encode:ClaimsSet", check=chk_nodup, claims_dup=True))
+    out += combos.dup_class_pair_cases(case)
+    out += [c for f in (combos.header_combo_cases, combos.key_combo_cases, combos.claims_combo_cases) for c in f(case, 4) if '-dup' in c['fam']]
     return out
 
 # ================================================================= C20
@@ -1486,6 +1520,26 @@ def cases_C02(rng, tier):
         ops = [A(T("protected"), h), A(T("payload"), B(b"p"))]
         out.append(case("build", "CoseSign1", enc(('a', ops)), fam="builder-protected-has-no-wire-bytes",
                         check=lambda c, o: None if o.startswith("ok [[N,") else "builder-made protected header carries original_data"))
+    # counter-signatures of decoded messages: context CounterSignature, body = the message's protected bytes,
+    # sign_protected = the counter-signature's protected bytes as received (nested one level down, or in the
+    # unprotected header), every spelling
+    inner_spellings = [b"", b"\xa0", b"\xbf\xff", b"\xb8\x00", b"\xa1\x01\x26", b"\xbf\x01\x26\xff", b"\xa2\x04\x41\x6b\x01\x26", b"\xa1\x18\x01\x38\x06"]
+    for ip in inner_spellings:
+        for form in ("single", "list"):
+            for where in ("protected", "unprotected"):
+                for style in (None, "noncanon"):
+                    cs0 = A(B(ip), M(), B(b"cs0")); cs1 = A(B(b"\xa1\x04\x41\x31"), M(), B(b"cs1"))
+                    v7 = cs0 if form == "single" else A(cs1, cs0)
+                    k = 0 if form == "single" else 1
+                    hmap = M((I(1), I(-7)), (I(7), v7))
+                    hb = enc(hmap, rng if style else None, style="nobignum")
+                    if where == "protected":
+                        outer = hb; msg = enc(A(B(hb), M(), B(b"pl"), B(b"sg")))
+                    else:
+                        outer = b"\xa1\x01\x26"; msg = enc(A(B(outer), ("raw", hb), B(b"pl"), B(b"sg")))
+                    want = pyspec.sig_structure("CounterSignature", outer, ip, b"aad", b"payload")
+                    out.append(case("helperhex", "countersig.tbs", msg, bytes([k]), b"aad", b"payload", fam="countersig-uses-wire-bytes",
+                                    impl_only=True, expect="ok " + want.hex()))
     return out
 
 def post_C02(cases, impl):
@@ -1590,6 +1644,8 @@ def cases_C01(rng, tier):
         out.append(case("dec", "Value", big, fam="large-input", impl_only=True, expect_re=r"ok .*"))
         out.append(case("dec", "CoseSign1", enc(A(B(b""), M(), ("raw", big), B(b""))), fam="large-input", impl_only=True, expect_re=r"ok .*"))
         out.append(case("dec", "Header", head(4, 23) * 1 + bytes(n), fam="large-input", impl_only=True, expect_re=r"err:\w+"))
+    for ty, b in combos.wide_inputs():
+        out.append(case('timedec', ty, b, fam='wide:' + ty, impl_only=True, expect='ok accepted'))
     return out
 # ================================================================= registry
 PROPS = {}
